@@ -393,6 +393,8 @@ type Gen struct {
 	issued    map[string][]string
 	// GoExtends allows extensions that carry the @go directive.
 	GoExtends bool
+	// TypeNamedDirectives lets new directives carry the name of a loaded type.
+	TypeNamedDirectives bool
 	// dirLit maps a custom directive to a literal for its input-object argument
 	// "o" ("" = the directive has no such argument).
 	dirLit map[string]string
@@ -567,6 +569,15 @@ func (g *Gen) dirUse(exclude []string) string {
 // generator cannot write a value for).
 func (g *Gen) inputLiteral(in *TInfo) (string, bool) { return g.inputLiteralDepth(in, 0) }
 
+func (g *Gen) inputByName(name string) *TInfo {
+	for _, t := range g.all("input") {
+		if t.Name == name {
+			return t
+		}
+	}
+	return nil
+}
+
 func (g *Gen) inputLiteralDepth(in *TInfo, depth int) (string, bool) {
 	var parts []string
 	for _, f := range in.Fields {
@@ -575,7 +586,7 @@ func (g *Gen) inputLiteralDepth(in *TInfo, depth int) (string, bool) {
 			// optional: mostly left out; a nested input object is sometimes given
 			// as an empty-ish literal (validation fills its defaults in)
 			b := strings.Trim(typ, "[]!")
-			if nested := g.St.ByName[b]; nested != nil && nested.Kind == "input" && depth < 2 && !strings.Contains(typ, "[") && g.T.Bool(1, 2) {
+			if nested := g.inputByName(b); nested != nil && depth < 2 && !strings.Contains(typ, "[") && g.T.Bool(1, 2) {
 				if nl, ok := g.inputLiteralDepth(nested, depth+1); ok {
 					parts = append(parts, f.Name+": "+nl)
 				}
@@ -584,7 +595,7 @@ func (g *Gen) inputLiteralDepth(in *TInfo, depth int) (string, bool) {
 		}
 		base := strings.Trim(typ, "[]!")
 		var v string
-		if nested := g.St.ByName[base]; nested != nil && nested.Kind == "input" && depth < 3 {
+		if nested := g.inputByName(base); nested != nil && depth < 3 {
 			// a nested input object, given as a literal of its own
 			if nl, ok := g.inputLiteralDepth(nested, depth+1); ok {
 				v = nl
@@ -763,7 +774,20 @@ func (g *Gen) Valid() Fragment {
 			g.maybeDirs(s)
 			return Fragment{Kind: "new_scalar", Text: s.SDL(), Spec: s}
 		case 7:
-			s := &TypeSpec{Kind: "directive", Name: g.fresh("d"),
+			dname := g.fresh("d")
+			if g.TypeNamedDirectives && len(g.St.Types) > 0 && g.T.Bool(1, 3) {
+				// types and directives have separate name spaces: a directive may
+				// carry the name of a loaded type
+				cand := g.St.Types[g.T.Draw(len(g.St.Types))].Name
+				if d, _ := g.dirLit["\x00taken:"+cand]; d == "" && !strings.HasPrefix(cand, "__") {
+					if g.dirLit == nil {
+						g.dirLit = map[string]string{}
+					}
+					g.dirLit["\x00taken:"+cand] = "x"
+					dname = cand
+				}
+			}
+			s := &TypeSpec{Kind: "directive", Name: dname,
 				Fields:  []FieldSpec{{Name: "x", Type: &TExpr{Name: "Int"}, Default: fmt.Sprint(1 + g.T.Draw(5))}},
 				Members: []string{"OBJECT", "FIELD_DEFINITION", "ENUM", "UNION", "INPUT_OBJECT", "INTERFACE", "SCALAR", "ENUM_VALUE", "SCHEMA", "ARGUMENT_DEFINITION", "INPUT_FIELD_DEFINITION"}}
 			if g.T.Bool(1, 2) {
